@@ -19,9 +19,6 @@ KWC = ['KNormal', 'KFlexStart', 'KFlexEnd', 'KStart', 'KEnd', 'KLeft', 'KRight',
 WRAP = ['nowrap', 'wrap', 'wrap-reverse']
 
 # known deviations of the implementation from css-flexbox, by trigger region (see the report of C12)
-SIG_PAD = 'flex:padding-not-in-outer-size'
-SIG_FRAC = 'flex:fractional-factor-sum'
-SIG_WRAPGAP = 'flex:wrap-gap-after-oversized'
 SIG_STARTEND = 'flex:justify-start-end-reversed'
 SIG_NEGFREE = 'flex:negative-free-space-no-fallback'
 SIG_STRETCH = 'flex:justify-stretch-grows'
@@ -160,18 +157,12 @@ def coq_row_case(c, out):
 def row_triggers(c, mask):
     """which known deviation region (if any) a css-reference disagreement falls in"""
     its = c['items']
-    if any(it['pl'] or it['pr'] for it in its):
-        return SIG_PAD
-    if any(Fraction(it[k]).denominator != 1 for it in its for k in ('grow', 'shrink')):
-        return SIG_FRAC
     if c['kw'] == 'stretch':
         return SIG_STRETCH
     if c['reverse'] and c['kw'] in ('start', 'end'):
         return SIG_STARTEND
     if mask & 4:
         return SIG_NEGFREE
-    if c['wrap'] and c['gap']:
-        return SIG_WRAPGAP
     return None
 
 
